@@ -10,6 +10,8 @@ def run(res):
     # (B) executions recorded from the real dispatcher, validated by TLC
     dc.trace_validate(res, 2000 if thorough else 200, 60)
     dc.repo_tests_validate(res)
+    if thorough:
+        dc.simulate_big(res)
     # non-vacuity: the as-implemented release loop violates the model's properties
     c2, ov2 = dc.consts(H=2, subs='Subs_Fixed', beh='Beh_C04', maxq=2, maxeid=3, pops=False)
     dc.switch_run(res, 'c04_asimpl_release', c2, ov2, expect=('NoBad', 'ReleaseProgress', 'QueueInOrder', 'DrainedOnReturn', 'StateBound'))
